@@ -41,13 +41,23 @@ Buffer_init(BufferObject *self, PyObject *args, PyObject *kwargs)
         return -1;
 
     if (data != NULL) {
-        self->base = malloc(data_len);
-        self->end = self->base + data_len;
-        memcpy(self->base, data, data_len);
-    } else {
-        self->base = malloc(capacity);
-        self->end = self->base + capacity;
+        capacity = data_len;
+    } else if (capacity < 0) {
+        PyErr_SetString(PyExc_ValueError, "Buffer capacity must not be negative");
+        return -1;
     }
+
+    /* malloc(0) may return NULL, always allocate at least one byte */
+    uint8_t *base = malloc(capacity ? capacity : 1);
+    if (base == NULL) {
+        PyErr_NoMemory();
+        return -1;
+    }
+    if (data != NULL) {
+        memcpy(base, data, data_len);
+    }
+    self->base = base;
+    self->end = self->base + capacity;
     self->pos = self->base;
     return 0;
 }
